@@ -12,8 +12,54 @@ _GRID = []
 
 def generate(g, i):
     if i < len(_GRID):
-        return _GRID[i]
-    return g.figure()
+        spec = dict(_GRID[i])
+        if i % 3 == 0:
+            spec["_stale"] = True
+        return spec
+    spec = g.figure()
+    if g.r.random() < 0.2:
+        spec["_stale"] = True
+    return spec
+
+
+def impl_fn(spec, doc):
+    """_stale: the image files held OTHER bytes of the same length (and the same modification time) during an earlier encode of
+    the same document; the payload must be what the files hold NOW."""
+    import os
+
+    if spec.get("_stale"):
+        figs = doc.rtf_figure.figures
+        paths = [str(p) for p in (figs if isinstance(figs, (list, tuple)) else [figs])]
+        saved = {}
+        for p in dict.fromkeys(paths):
+            real = open(p, "rb").read()
+            st = os.stat(p)
+            saved[p] = (real, st)
+            other = real[:-6] + bytes(b ^ 0x5A for b in real[-6:])
+            with open(p, "wb") as fh:
+                fh.write(other)
+            # a modification time of its own, which the real content gets as well when it is put back (as `cp -p` would do)
+            os.utime(p, ns=(st.st_atime_ns, st.st_mtime_ns + 7_000_000_000))
+        try:
+            doc.rtf_encode()
+        except Exception:  # noqa: BLE001
+            pass
+        for p, (real, st) in saved.items():
+            with open(p, "wb") as fh:
+                fh.write(real)
+            os.utime(p, ns=(st.st_atime_ns, st.st_mtime_ns + 7_000_000_000))
+    ok, out = rt.run_impl(doc)
+    return ok, out, rt.sx_impl(ok, out)
+
+
+_orig_build = rt.build
+
+
+def _build(spec, *a, **kw):
+    return _orig_build({k: v for k, v in spec.items() if not k.startswith("_")}, *a, **kw)
+
+
+rt.build = _build
 
 
 def extra_fn(spec, doc, ok, out):
@@ -28,4 +74,4 @@ def run(ctx):
     import gen
 
     _GRID[:] = gen.DocGen(ctx["seed"] + 1616).figure_grid(ctx["tier"] == "quick")
-    return common.run_docprop(ctx, "c16", generate, None, extra_fn=extra_fn, n_quick=120 + len(_GRID), n_thorough=1500 + len(_GRID), shrink_steps=40)
+    return common.run_docprop(ctx, "c16", generate, None, extra_fn=extra_fn, impl_fn=impl_fn, n_quick=120 + len(_GRID), n_thorough=1500 + len(_GRID), shrink_steps=40)
